@@ -1,8 +1,181 @@
-(* Crash repair: theorems about the model of recovery.go (Coercion.Recover.Fix). *)
-From Coercion.Base Require Import Plan.
-From Coercion.Recover Require Import Fix.
+(* Crash repair (internal/execute/sm/recovery.go): what can be stated about repair alone - the repair side of
+   C09 (durably finished work is never executed again) and C10 (recovery converges).
 
-Theorem fix_action_untouched_unless_running :
-  forall a : act, ac_st a <> Running -> fix_action a = a.
-Proof. intros a H. unfold fix_action. destruct (ac_st a); try reflexivity. now elim H. Qed.
-Print Assumptions fix_action_untouched_unless_running.
+   Model: Coercion.Recover.Fix - fix_action, fix_checks, fix_seq, fix_block, fix_plan and Recovery's switch
+   (entry_of), transcribed with their oddities, on an image (statuses, attempts as (has error, End is zero),
+   zero-ness of Start/End).  fixBlock executes the sequences it still finds Running: that is the oracle
+   [run_seq]; the theorems that need it assume [run_contract run_seq] (FixSpec: on a sequence whose actions are all
+   Completed or NotStarted, the actions are run in order, Completed ones are not touched, a NotStarted one ends
+   Completed or Failed, nothing after the first failure is touched, and the sequence ends Failed / Completed
+   accordingly) - which [exec_seq], the transcription of execSeq/runAction, is proved to meet.
+   Tie to the code: FixCheck.v + harness/cmd/fixprobe (function equality on every run).
+
+   All statements are for every image; there is no bound on shapes, attempts or statuses. *)
+From Coercion.Base Require Import Plan.
+From Coercion.Recover Require Import Fix FixSpec Witness FixCheck FixProofs FixExamples.
+
+(* ------------------------------------------------------------------ fixAction *)
+(* Declarative specification: an action that is not Running is untouched; a Running one whose attempts are all
+   incomplete (End zero) - in particular one with no attempt - is reset to NotStarted with no attempts and zero
+   times; otherwise the incomplete trailing attempts are dropped and the last complete attempt decides: no error
+   -> Completed, error -> Failed, End stamped, Start and the earlier attempts kept. *)
+Theorem fix_action_spec :
+  forall a : act,
+    (ac_st a <> Running -> fix_action a = a)
+    /\ (ac_st a = Running -> Forall (fun x => x_endz x = true) (ac_atts a) ->
+        fix_action a = Build_act (ac_id a) NotStarted true true [])
+    /\ (ac_st a = Running ->
+        forall kept x dropped, ac_atts a = kept ++ x :: dropped -> x_endz x = false ->
+          Forall (fun y => x_endz y = true) dropped ->
+          fix_action a = Build_act (ac_id a) (if x_err x then Failed else Completed) (ac_sz a) false (kept ++ [x])).
+Proof. exact fix_action_spec_all. Qed.
+Print Assumptions fix_action_spec.
+
+(* the three cases of the specification are exhaustive: it determines fix_action completely *)
+Theorem fix_action_spec_exhaustive :
+  forall l : list att,
+    Forall (fun x => x_endz x = true) l
+    \/ exists kept x dropped, l = kept ++ x :: dropped /\ x_endz x = false /\ Forall (fun y => x_endz y = true) dropped.
+Proof. exact atts_cases. Qed.
+Print Assumptions fix_action_spec_exhaustive.
+
+Theorem fix_action_never_leaves_running :
+  forall a : act, ac_st (fix_action a) <> Running.
+Proof. exact fix_action_not_running. Qed.
+Print Assumptions fix_action_never_leaves_running.
+
+Theorem fix_action_idempotent :
+  forall a : act, fix_action (fix_action a) = fix_action a.
+Proof. exact fix_action_idem. Qed.
+Print Assumptions fix_action_idempotent.
+
+(* ------------------------------------------------------------------ execSeq is an instance of the contract *)
+Theorem exec_seq_meets_contract :
+  forall run_act : act -> act,
+    (forall a, ac_st a = NotStarted -> ac_st (run_act a) = Completed \/ ac_st (run_act a) = Failed) ->
+    run_contract (exec_seq run_act).
+Proof. exact exec_seq_contract. Qed.
+Print Assumptions exec_seq_meets_contract.
+
+(* what fixBlock hands to execSeq is always inside the contract's domain: every action of a sequence that is
+   still Running after fixSeq is Completed or NotStarted (none Running, Failed or Stopped) *)
+Theorem resumed_sequence_is_resumable :
+  forall s : seq, sq_st (fix_seq s) = Running ->
+    sq_st (fix_seq s) = Running
+    /\ Forall (fun a => ac_st a = Completed \/ ac_st a = NotStarted) (sq_acts (fix_seq s)).
+Proof. exact fix_seq_resumable. Qed.
+Print Assumptions resumed_sequence_is_resumable.
+
+(* ------------------------------------------------------------------ fix_never_unfinishes (heart of C09, repair side)
+   Whatever is Completed, Failed or Stopped in the image - plan, block, sequence, sequence action - is, after
+   fixPlan INCLUDING the execution of the resumed sequences, the same object at the same place, with its whole
+   subtree; every check group that is not Running is untouched with its actions; the shape is preserved. *)
+Theorem fix_never_unfinishes :
+  forall (run_seq : seq -> seq), run_contract run_seq ->
+  forall p : pln,
+    let p' := fp_pln (fix_plan run_seq p) in
+    (is_terminal (pl_st p) = true -> p' = p)
+    /\ (forall i b, get_blk p i = Some b -> is_terminal (bk_st b) = true -> get_blk p' i = Some b)
+    /\ (forall i j s, get_seq p i j = Some s -> is_terminal (sq_st s) = true -> get_seq p' i j = Some s)
+    /\ (forall i j k a, get_act p i j k = Some a -> is_terminal (ac_st a) = true -> get_act p' i j k = Some a)
+    /\ (forall g c, pl_grp g p = Some c -> ck_st c <> Running -> pl_grp g p' = Some c)
+    /\ (forall i g c, get_bgrp p i g = Some c -> ck_st c <> Running -> get_bgrp p' i g = Some c)
+    /\ length (pl_blocks p') = length (pl_blocks p).
+Proof. exact never_unfinishes_all. Qed.
+Print Assumptions fix_never_unfinishes.
+
+(* ------------------------------------------------------------------ fix_plan_idempotent (modulo run_seq)
+   Repairing the repaired image changes nothing and executes nothing. *)
+Theorem fix_plan_idempotent :
+  forall (run_seq : seq -> seq), run_contract run_seq ->
+  forall p : pln,
+    fix_plan run_seq (fp_pln (fix_plan run_seq p)) = Build_fixp (fp_pln (fix_plan run_seq p)) [].
+Proof. exact fix_plan_idem. Qed.
+Print Assumptions fix_plan_idempotent.
+
+(* ------------------------------------------------------------------ fix_no_running_action_left: what IS true
+   In a block that fixBlock processed completely (fb_full: it was Running and none of the early returns was
+   taken), no sequence is Running afterwards; every sequence that was Running in the image has no Running action
+   left; the other sequences are untouched (so a Running action can only survive inside a sequence that was not
+   itself Running in the image). *)
+Theorem fix_no_running_action_left :
+  forall (run_seq : seq -> seq), run_contract run_seq ->
+  forall (b : blk) (j : nat) (s s' : seq),
+    fb_full (fix_block run_seq b) = true ->
+    nth_error (bk_seqs b) j = Some s ->
+    nth_error (bk_seqs (fb_blk (fix_block run_seq b))) j = Some s' ->
+    sq_st s' <> Running
+    /\ (sq_st s = Running -> Forall (fun a => ac_st a <> Running) (sq_acts s'))
+    /\ (sq_st s <> Running -> s' = s).
+Proof. exact no_running_left_in_processed_block. Qed.
+Print Assumptions fix_no_running_action_left.
+
+(* ... and which blocks fixPlan hands to fixBlock: all of them up to the first one that comes back Stopped,
+   provided the plan is Running and not cut short by its own bypass / pre / post group *)
+Theorem fix_plan_processes_blocks :
+  forall (run_seq : seq -> seq), run_contract run_seq ->
+  forall (p : pln) (i : nat) (b : blk),
+    pl_st p = Running ->
+    chk_is Completed (fix_checks_opt (pl_bypass p)) = false ->
+    checks_failed (pl_pre p) = false -> checks_failed (pl_post p) = false ->
+    get_blk p i = Some b ->
+    (forall i' b', i' < i -> get_blk p i' = Some b' -> bk_st (fb_blk (fix_block run_seq b')) <> Stopped) ->
+    get_blk (fp_pln (fix_plan run_seq p)) i = Some (fb_blk (fix_block run_seq b)).
+Proof. exact plan_processes_blocks. Qed.
+Print Assumptions fix_plan_processes_blocks.
+
+(* ------------------------------------------------------------------ negative results: the known findings
+   "When Recovery goes straight to End nothing is left Running" is FALSE for the code as it is.
+   The witnesses (Witness.v) are replayed on the implementation through the hooks on every run. *)
+
+(* R2: crash during the run of a check group (the group is durably NotStarted - groups are never written
+   Running, so fixChecks does not fire - and its action durably Running); here the deferred group of a block
+   whose post group had failed.  fixPlan: plan Failed, entry End, the action stays Running, the group is never run *)
+Theorem repair_R2_refuted :
+  ~ (forall (run_seq : seq -> seq) (p : pln), pl_st p = Running -> recovery_entry run_seq p = EEnd ->
+       no_running_check_action (fp_pln (fix_plan run_seq p)) = true).
+Proof. exact R2_refuted. Qed.
+Print Assumptions repair_R2_refuted.
+
+Theorem repair_R2_witness :
+  forall run_seq : seq -> seq,
+    pl_st witness_R2 = Running
+    /\ recovery_entry run_seq witness_R2 = EEnd
+    /\ pl_st (fp_pln (fix_plan run_seq witness_R2)) = Failed
+    /\ fp_resumed (fix_plan run_seq witness_R2) = []
+    /\ no_running_check_action (fp_pln (fix_plan run_seq witness_R2)) = false
+    /\ (exists c a, get_bgrp (fp_pln (fix_plan run_seq witness_R2)) 0 GDeferred = Some c
+                    /\ ck_st c = NotStarted /\ nth_error (ck_acts c) 0 = Some a /\ ac_st a = Running).
+Proof. exact witness_R2_facts. Qed.
+Print Assumptions repair_R2_witness.
+
+(* R3: a Running block with a durably Failed continuous group and a sequence in flight: fixBlock returns at
+   once (block Failed, fb_full = false), the sequence and its action stay Running, plan Failed, entry End *)
+Theorem repair_R3_refuted :
+  ~ (forall (run_seq : seq -> seq) (p : pln), pl_st p = Running -> recovery_entry run_seq p = EEnd ->
+       no_running_sequence (fp_pln (fix_plan run_seq p)) = true).
+Proof. exact R3_refuted. Qed.
+Print Assumptions repair_R3_refuted.
+
+Theorem repair_R3_witness :
+  forall run_seq : seq -> seq,
+    pl_st witness_R3 = Running
+    /\ recovery_entry run_seq witness_R3 = EEnd
+    /\ pl_st (fp_pln (fix_plan run_seq witness_R3)) = Failed
+    /\ fp_resumed (fix_plan run_seq witness_R3) = []
+    /\ no_running_sequence (fp_pln (fix_plan run_seq witness_R3)) = false
+    /\ (exists b s a, get_blk witness_R3 0 = Some b /\ bk_st b = Running /\ chk_is Failed (bk_cont b) = true
+                      /\ fb_full (fix_block run_seq b) = false
+                      /\ get_seq (fp_pln (fix_plan run_seq witness_R3)) 0 0 = Some s /\ sq_st s = Running
+                      /\ nth_error (sq_acts s) 1 = Some a /\ ac_st a = Running).
+Proof. exact witness_R3_facts. Qed.
+Print Assumptions repair_R3_witness.
+
+(* ------------------------------------------------------------------ non-vacuity
+   The contract is met by the scripted execution the correspondence check uses (so every theorem above applies
+   to it), and the hypotheses hold on the concrete image FixExamples.ex_image (a finished block, a finished
+   action inside a Running sequence, a resumed sequence, a completely processed block). *)
+Theorem contract_is_satisfiable :
+  forall sc : script, run_contract (run_seq_script sc).
+Proof. exact run_seq_script_contract. Qed.
+Print Assumptions contract_is_satisfiable.
